@@ -1713,6 +1713,38 @@ Proof.
   unfold nowait in N. congruence.
 Qed.
 
+(** * 10c. Every handshake ends with an error or a certificate: never the empty certificate with a
+    nil error (optionalMaintenance serves the certificate it was given, or fails; loadCertFromStorage
+    reports a maintenance failure without a certificate as an error) *)
+Theorem handshake_result_not_empty is_space w h e k res w1 :
+  handshake is_space w h = (e, k, res, w1) -> res <> REmpty.
+Proof.
+  unfold handshake, get_cert. intros H.
+  destruct (match h_hit h with Some id => cache_find id w | None => None end) as [c|].
+  - destruct (c_managed c && od_on w && true).
+    + destruct (maintenance _ _ _ _ _ _) as [[[e1 k1] r1] w2]. inv H.
+      destruct r1; try discriminate; destruct (c_expired c); discriminate.
+    + inv H. discriminate.
+  - destruct (h_name h) as [n|]; [|inv H; discriminate].
+    assert (A : forall e k res w1, after_mgr is_space fuel0 w h n true = (e, k, res, w1) -> res <> REmpty).
+    { clear H. unfold after_mgr, fallback, res_of. intros e0 k0 r0 w0 H.
+      destruct (gate is_space w n false) as [[ge a] wg]. cbv beta iota zeta in H.
+      destruct a; cbn [negb] in H; [|inv H; discriminate].
+      destruct ((od_on wg || almost_full wg) && true).
+      2:{ inv H. destruct (h_default h); discriminate. }
+      destruct (load_and_maintain _ _ _ _ _ _) as [[[e1 k1] r1] w2].
+      destruct r1 as [m|].
+      - destruct m; inv H; try discriminate; destruct (h_default h); discriminate.
+      - destruct (od_on w2).
+        + destruct (obtain_on_demand _ _ _ _) as [[[e2 k2] m2] w3]. inv H. destruct m2; discriminate.
+        + inv H. destruct (h_default h); discriminate. }
+    destruct (mgr_view w h).
+    + eapply A; eauto.
+    + destruct (after_mgr is_space fuel0 w h n true) as [[[e1 k1] r1] w2] eqn:E1. inv H. eapply A; eauto.
+    + inv H. discriminate.
+    + inv H. discriminate.
+Qed.
+
 (** * 11. The literals of the source the model was written against (translator item
     c02EmitC02GateShape): the cache-miss gate is called with requireOnDemand = false, the two
     renewal-side gates (storage-missing branch of handshakeMaintenance, renewAndReload) with true, and
